@@ -21,7 +21,7 @@ var propPackages = map[string][]string{
 	"C05": {"."},
 	"C06": {"rpc"},
 	"C07": {"rpc"},
-	"C08": {"rpc"},
+	"C08": {".", "rpc"},
 	"C09": {"rpc"},
 	"C10": {".", "rpc"},
 	"C11": {"."},
